@@ -13,6 +13,7 @@ HEADER = ('From Hts Require Import Base.Prim Generated Model.Cache Model.LockSke
 
 PUT, GET, PEEK, LEN, CAP, RESIZE, DROP, FREE, REBASE, STATS, RESET = range(11)
 PUTNEW, PUTBACK = 20, 21
+HUGE = [(1 << 63) - 1, (1 << 63) - 2, (1 << 63) - 3, 1 << 62]
 OPN = {PUT: 'put', GET: 'get', PEEK: 'peek', LEN: 'len', CAP: 'cap', RESIZE: 'resize', DROP: 'drop',
        FREE: 'free', REBASE: 'rebase', STATS: 'stats', RESET: 'reset', PUTNEW: 'putnew', PUTBACK: 'putback'}
 KINDS = ['lru', 'fifo', 'random']
@@ -54,9 +55,10 @@ def rand_history(rng, nb, cap, length, stats, shape):
         elif r < 0.84:
             ops.append([RESIZE, rng.randrange(1, cap + 3)])
         elif r < 0.91:
-            ops.append([DROP, rng.randrange(0, cap + 2)])
+            ops.append([DROP, rng.randrange(0, cap + 2) if rng.random() < 0.9 else rng.choice(HUGE)])
         elif r < 0.96:
-            ops.append([FREE, rng.randrange(0, cap + 3)])
+            # "free everything": counts at the top of the int range (judged by the contract oracle only)
+            ops.append([FREE, rng.randrange(0, cap + 3) if rng.random() < 0.8 else rng.choice(HUGE)])
         elif stats:
             ops.append([STATS] if rng.random() < 0.8 else [RESET])
         else:
@@ -308,6 +310,10 @@ def run(res, rng, tier):
         for op in o['ops']:
             res.count('seq/op=' + OPN[op[0]])
         if any(v['sig'].endswith(':protocol') for v in o.get('viol') or []):
+            continue
+        if any(op[0] in (DROP, FREE) and op[1] > (1 << 31) for op in o['ops']):
+            # the model counts drop iterations in unary (Z.to_nat n): such a history is judged by the oracle only
+            res.count('seq/huge-drop-or-free(oracle only)')
             continue
         terms.append((prim, o, seq_term(o)))
     core.log('c14: +seq %.1fs' % (time.time() - t0))
